@@ -4,13 +4,13 @@
 From TV Require Import Base.Result.
 
 (* Buffer::read(offset) = packet[offset] : a checked index *)
-Definition buf_read (offset : nat) (buf : list Z) : result Z := index offset buf.
+Definition pv_buf_read (offset : nat) (buf : list Z) : result Z := index offset buf.
 
 (* Buffer::get_bytes::<N>(offset) = from_fn(|i| read(offset + i)) : N checked indexes *)
 Fixpoint buf_get_bytes (n offset : nat) (buf : list Z) : result (list Z) :=
   match n with
   | O => Ok []
-  | S n' => let* b := buf_read offset buf in
+  | S n' => let* b := pv_buf_read offset buf in
             let* t := buf_get_bytes n' (S offset) buf in Ok (b :: t)
   end.
 
@@ -23,10 +23,10 @@ Definition buf_get_u32 (offset : nat) (buf : list Z) : result Z :=
 
 (* u8 operators.  `&`, `|`, `>>` cannot leave the type; `<<` on u8 discards the high bits
    (only a shift *amount* >= 8 panics, and every amount in the code is a literal < 8). *)
-Definition u8_and (a m : Z) : Z := Z.land a m.
-Definition u8_or (a b : Z) : Z := Z.lor a b.
-Definition u8_shr (a n : Z) : Z := Z.shiftr a n.
-Definition u8_shl (a n : Z) : Z := (Z.shiftl a n) mod 256.
+Definition pv_u8_and (a m : Z) : Z := Z.land a m.
+Definition pv_u8_or (a b : Z) : Z := Z.lor a b.
+Definition pv_u8_shr (a n : Z) : Z := Z.shiftr a n.
+Definition pv_u8_shl (a n : Z) : Z := (Z.shiftl a n) mod 256.
 
 (* XxxPacket::new_view(packet): Err(InsufficientPacketBuffer) below the minimum size *)
 Definition new_view (min : nat) (packet : list Z) : result (list Z) :=
